@@ -324,8 +324,15 @@ func Cases(rng *rand.Rand, thorough bool) []*Script {
 	var list []*Script
 	strs := append(structures("grpc"), structures("http")...)
 	if thorough {
-		const per = 18
 		for _, st := range strs {
+			// Plans in which the back-end finishes while the client is still
+			// sending are the ones where the forwarder's two goroutines
+			// overlap with the end of the call: draw them more often (the race
+			// detector only sees the interleavings that happen).
+			per := 18
+			if strings.Contains(st.Fam, "read-some") {
+				per = 36
+			}
 			for k := 0; k < per; k++ {
 				list = append(list, materialise(rng, st))
 			}
